@@ -4,6 +4,7 @@ import (
 	"fmt"
 	"go/ast"
 	"go/constant"
+	"go/token"
 	"go/types"
 	"sort"
 	"strings"
@@ -763,9 +764,85 @@ func c18(c *an.Ctx) {
 // put the zero clamp under isCounter, otherwise delta() of a gauge that rises from near zero
 // differs from Prometheus (and from the other copy).
 func c18counterOnlyClamp(c *an.Ctx) {
-	r := c.Rule("C18.R2", "K-SIBLING", "both copies of the rate/increase/delta extrapolation kernel apply the zero-crossing clamp only to counters")
-	n := 0
-	for _, k := range []struct{ spec, lit string }{
+	r := c.Rule("C18.R2", "K-SIBLING", "both evaluations of rate/increase/delta (store-side range vector, executor-side sub-query) apply the zero-crossing clamp of the extrapolation only to counters")
+	// the clamp is the kernel's only min-clamp between two locals: `if a < b { b = a }`
+	isClamp := an.MNode("min-clamp `if a < b { b = a }`", func(h *an.Fn, m ast.Node) bool {
+		as, ok2 := m.(*ast.AssignStmt)
+		if !ok2 {
+			return false
+		}
+		blk, _ := h.Parent(as).(*ast.BlockStmt)
+		if blk == nil || len(blk.List) != 1 {
+			return false
+		}
+		ifs, ok := h.Parent(blk).(*ast.IfStmt)
+		if !ok || ifs.Else != nil || ifs.Init != nil || ifs.Body != blk {
+			return false
+		}
+		be, ok := ifs.Cond.(*ast.BinaryExpr)
+		if !ok || len(as.Lhs) != 1 || len(as.Rhs) != 1 || as.Tok != token.ASSIGN {
+			return false
+		}
+		l, ok1 := as.Lhs[0].(*ast.Ident)
+		rr, ok2 := as.Rhs[0].(*ast.Ident)
+		a, okA := be.X.(*ast.Ident)
+		b, okB := be.Y.(*ast.Ident)
+		if !ok1 || !ok2 || !okA || !okB {
+			return false
+		}
+		switch be.Op {
+		case token.LSS, token.LEQ:
+			return a.Name == rr.Name && b.Name == l.Name
+		case token.GTR, token.GEQ:
+			return b.Name == rr.Name && a.Name == l.Name
+		}
+		return false
+	})
+	// kernelOf finds the function (the anchor itself, or one it delegates to through static
+	// calls, depth <= 3) whose returned literal holds the clamp, and checks the guard there.
+	var kernelOf func(f *an.Fn, what string, depth int, seen map[*types.Func]bool) int
+	kernelOf = func(f *an.Fn, what string, depth int, seen map[*types.Func]bool) int {
+		n := 0
+		for i, lit := range f.FindLits() {
+			g := f.Lit(lit, fmt.Sprint("kernel", i))
+			clamp := g.Find(isClamp)
+			if clamp.Len() == 0 {
+				continue
+			}
+			n += clamp.Len()
+			g.Guarded(r, clamp, what+": zero-crossing clamp only for counters", an.AtomLike(`^(outer\d+\.)?p1$|isCounter`, true))
+		}
+		if n > 0 || depth >= 3 {
+			return n
+		}
+		ast.Inspect(f.Src.Decl.Body, func(m ast.Node) bool {
+			call, ok := m.(*ast.CallExpr)
+			if !ok {
+				return true
+			}
+			callee := an.Callee(f.Src.Pkg.TypesInfo, call)
+			if callee == nil || seen[callee] {
+				return true
+			}
+			// only constructors of a kernel: (isRate, isCounter bool) -> func
+			sig := callee.Type().(*types.Signature)
+			if sig.Params().Len() != 2 || sig.Results().Len() != 1 {
+				return true
+			}
+			if _, isFn := sig.Results().At(0).Type().Underlying().(*types.Signature); !isFn {
+				return true
+			}
+			seen[callee] = true
+			if src := c.P.Src(callee); src != nil {
+				if cf := c.P.Fn(src); cf != nil {
+					n += kernelOf(cf, what+" (delegates to "+callee.Name()+")", depth+1, seen)
+				}
+			}
+			return true
+		})
+		return n
+	}
+	for _, k := range []struct{ spec, what string }{
 		{"engine/executor:rate", "sub-query kernel"},
 		{"engine:floatPromRateMerge", "store-side range-vector kernel"},
 	} {
@@ -773,27 +850,10 @@ func c18counterOnlyClamp(c *an.Ctx) {
 		if f == nil {
 			continue
 		}
-		// the kernel is the function literal the constructor returns
-		for i, lit := range f.FindLits() {
-			g := f.Lit(lit, fmt.Sprint("kernel", i))
-			clamp := g.Find(an.MNode("durationToStart = durationToZero", func(h *an.Fn, m ast.Node) bool {
-				as, ok := m.(*ast.AssignStmt)
-				if !ok || len(as.Lhs) != 1 || len(as.Rhs) != 1 {
-					return false
-				}
-				l, ok1 := as.Lhs[0].(*ast.Ident)
-				rr, ok2 := as.Rhs[0].(*ast.Ident)
-				return ok1 && ok2 && l.Name == "durationToStart" && rr.Name == "durationToZero"
-			}))
-			if clamp.Len() == 0 {
-				continue
-			}
-			n += clamp.Len()
-			g.Guarded(r, clamp, k.lit+": zero-crossing clamp only for counters", an.AtomLike(`^(outer\d+\.)?p1$|isCounter`, true))
+		if kernelOf(f, k.what, 0, map[*types.Func]bool{}) == 0 {
+			r.Fail("noclamp:"+k.spec, c.P.Pos(f.Src.Decl.Pos()), "%s: no zero-crossing clamp (`if a < b { b = a }` under isCounter) found in the kernel literal or in a kernel constructor it delegates to — rate()/increase() of a counter must stop the extrapolation at the zero crossing", k.what)
 		}
 	}
-	r.AddSites(n)
-	r.Floor(2, "copies of the extrapolation kernel")
 }
 
 func keysOfMap(m map[string]bool) []string {
